@@ -142,7 +142,10 @@ def main():
         sem, cf = c03.tlc_sem(rep, wd, cases, '%d workbooks' % n)
         # the work-list machine with every pop order, on a subset (state space)
         sub = os.path.join(wd, 'sub.json')
-        json.dump(cases[:25 if not thorough else 60], open(sub, 'w'))
+        # (every pop order: the number of requested outputs is capped at two here,
+        #  the replay below asks for all of them)
+        subset = [dict(c, outs=c['outs'][:2]) for c in cases[:25 if not thorough else 60]]
+        json.dump(subset, open(sub, 'w'))
         r = run_tlc('Complete', 'Complete.cfg', env={'WB_FILE': sub, 'OUT_FILE': os.path.join(wd, 'n.json')},
                     timeout=2500, heap='8g')
         rep.add_tlc(r, 'Complete: work-list of complete() with every pop order; '
